@@ -830,7 +830,7 @@ func vcReplay(idx int, hist []vsStep, c vsConc, maxT int, stats *vcCrashStats, m
 		}
 		from = len(rec.images)
 		delRange := o.before(st)
-		if c.Persist == 2 && st.A == "write" {
+		if c.Persist == 2 && (st.A == "write" || st.A == "commit") {
 			// which auto-commits persist the index: pattern 0 = none before Close, 1 = every
 			// write except the first of a session, 2 = coin flips
 			firstOfSession := i > 0 && hist[i-1].A == "open"
